@@ -81,8 +81,10 @@ def r6_per_record(run, w, rewriters):
   process_renames call -- never from a memo shared across records."""
   R6 = run.rule("C17-R6", "each record's new formula text is the direct result of a "
                 "process_renames call made for that record", floor=3)
+  run0 = run
   for fn, sites in rewriters:
     v = _views(fn)
+    run = H.Guarded(run0, v, keep=KEEP)
     for (n, c) in sites:
       loops = [l for l in v.enclosing_loops(n.stmt) if isinstance(l, ast.For)]
       if not loops:
@@ -206,8 +208,10 @@ def r1_wiring(run, w, rewriters):
   if col_site is None or tab_site is None:
     raise AnalysisError("the functions emitting RenameColumn / RenameTable were not found")
   # ---- column renames
+  run0 = run
   fn = col_site.fn
   v = col_site.view
+  run = H.Guarded(run0, v, keep=KEEP)
   cfg = fn.cfg
   if len(col_site.preps) != 1:
     raise AnalysisError("%s: one _prepare_formula_renames call expected" % fn.qualname)
@@ -245,6 +249,7 @@ def r1_wiring(run, w, rewriters):
   # ---- table renames
   fn = tab_site.fn
   v = tab_site.view
+  run = H.Guarded(run0, v, keep=KEEP)
   anchor = w.repo.func("acl.prepare_acl_table_renames")
   if len(tab_site.preps) != 1:
     raise AnalysisError("%s: one _prepare_formula_renames call expected" % fn.qualname)
@@ -273,6 +278,7 @@ def r1_wiring(run, w, rewriters):
       raise AnalysisError("acl.prepare_acl_table_renames: returned closure not found")
     ifn = w.fn_of(inner)
     iv = H.View(ifn)
+    run = H.Guarded(run0, iv, keep=KEEP)
     tabs = []
     for (m, c2, nm) in ifn.calls():
       if endswith(nm, "doBulkUpdateFromPairs"):
@@ -284,6 +290,7 @@ def r1_wiring(run, w, rewriters):
            "the callback stores the updates of resources and of rules",
            sorted(tabs) == ["_grist_ACLResources", "_grist_ACLRules"], fi=inner)
   # ---- key shape of every lookup in a rename map
+  run = run0
   for (rfn, sites) in rewriters:
     top = w.repo.func(rfn.fi.qualname)
     while top.parent is not None:
@@ -313,15 +320,28 @@ def _key_shapes(run, R1, w, top, table_map=False):
   for f in fis:
     if f is not top and mp in f.params():
       continue
-    fv = H.View(w.fn_of(f))
-    for n in walk_no_nested(f.node):
+    # the function itself is read with its private helpers followed (the map may reach them
+    # under another parameter name)
+    ffn = H.xfn(w, f.qualname, keep=KEEP) if f is top else w.fn_of(f)
+    fv = H.View(ffn)
+
+    def is_map(e):
+      if text(e) == mp:
+        return True
+      if isinstance(e, ast.Name) and fv.point_of(e) is not None:
+        r = fv.alias_root(e)
+        return isinstance(r, ast.Name) and r.id == mp and \
+            fv.reaching(mp, fv.point_of(e)) <= frozenset([fv.ENTRY])
+      return False
+
+    for n in walk_no_nested(ffn.node):
       if isinstance(n, ast.Call) and isinstance(n.func, ast.Attribute) and \
-          n.func.attr == "get" and text(n.func.value) == mp and n.args:
+          n.func.attr == "get" and is_map(n.func.value) and n.args:
         keys.append((fv, n.args[0]))
-      elif isinstance(n, ast.Subscript) and text(n.value) == mp:
+      elif isinstance(n, ast.Subscript) and is_map(n.value):
         keys.append((fv, n.slice))
       elif isinstance(n, ast.Compare) and len(n.ops) == 1 and \
-          isinstance(n.ops[0], (ast.In, ast.NotIn)) and text(n.comparators[0]) == mp:
+          isinstance(n.ops[0], (ast.In, ast.NotIn)) and is_map(n.comparators[0]):
         keys.append((fv, n.left))
   seen = set()
   for (fv, k0) in keys:
@@ -387,10 +407,12 @@ def r2_paired_fields(run, w, rewriters):
                 floor=16)
   schema = H.python_schema(w)
   nsites = 0
+  run0 = run
   for (fn, sites) in rewriters:
     q = fn.qualname
     cfg = fn.cfg
     v = _views(fn)
+    run = H.Guarded(run0, v, keep=KEEP)
     for (node, call) in sites:
       nsites += 1
       pb = H.bind_args(call, ("formula", "collector", "renamer"))
@@ -472,6 +494,9 @@ def _old_text_source(run, R2, fn, v, oldexpr, field, cont, sst):
   q = fn.qualname
   src = v.x(oldexpr)
   f, base = _field_of(v, src)
+  if f is None:
+    raise AnalysisError("%s: cannot tell which field the old formula text %s is read from"
+                        % (q, short(src)))
   ok = f == field and (cont is None or base == cont)
   run.ob(R2, q, "old text = %s" % short(src), "the text that is renamed is read from the field "
          "(%r) the result is written back to" % field, ok, fi=fn.fi, node=sst)
@@ -731,6 +756,7 @@ def r4_process_renames(run, w):
                 "unchanged", floor=7)
   fn = H.xfn(w, "predicate_formula.process_renames", keep=("get_dollar_replacer",))
   v = H.View(fn)
+  run = H.Guarded(run, v, keep=("get_dollar_replacer",))
   cfg = fn.cfg
   q = fn.qualname
   formula, collector, renamer = fn.fi.params()[:3]
@@ -853,7 +879,9 @@ def r5_two_passes(run, w, rewriters):
       free = {n.id for n in ast.walk(rfi.node) if isinstance(n, ast.Name) and
               isinstance(n.ctx, ast.Load)} - local_params
       for name in sorted(free):
-        fills = du.muts.get(name, set())
+        fills = set()
+        for nm in du.group(name):        # the table may be filled under another local name
+          fills |= du.muts.get(nm, set())
         if not fills:
           continue            # not a table filled in place by the enclosing function
         n_inst += 1
